@@ -15,6 +15,7 @@ import VProofs.StateResSpecUnique
 import VProofs.StateResSpecExample
 import VProofs.StateResSpecV1c
 import VProofs.StateResSpecExecResolve
+import VProofs.StateResSpecExecV1
 namespace V.C10
 open V V.StateRes V.StateResSpec
 
@@ -189,10 +190,10 @@ theorem mainline_normal_case {m : List Event} (hac : Acyclic (· ∈ m)) {e : Ev
 theorem mainlinePos_eq_spec (ml : List Event) (id : ID) : mainlinePos ml id = posOf ml id := mainlinePos_eq_posOf ml id
 
 theorem posSteps_eq_spec {m ml : List Event} (hac : Acyclic (· ∈ m)) (e : Event) :
-    MainlinePosSteps m ml e (firstMainline m ml (m.length + 2) e (0, 0)) := V.StateResSpec.posSteps_eq_spec hac e
+    MainlinePosSteps m ml e (firstMainline m ml (m.length + 2) [] e (0, 0)) := V.StateResSpec.posSteps_eq_spec hac e
 
 theorem posSteps_normal_case {m ml : List Event} (hac : Acyclic (· ∈ m)) {e : Event} {r : Nat × Nat}
-    (h : ChainWalk m ml e 0 r) : firstMainline m ml (m.length + 2) e (0, 0) = r := firstMainline_of_chainWalk hac h
+    (h : ChainWalk m ml e 0 r) : firstMainline m ml (m.length + 2) [] e (0, 0) = r := firstMainline_of_chainWalk hac h
 
 /-- mainline ordering = sort by (position, steps, timestamp, ID) -/
 theorem mainlineOrdering_eq_spec {m : List Event} (hac : Acyclic (· ∈ m)) (ml evs : List Event) :
@@ -376,5 +377,17 @@ theorem execSpec_eq_model (algo : Nat) (halgo : algo = 2 ∨ algo = 3) (sets : L
     (hc : ∀ a b, Conflicted sets a → Conflicted sets b → a.isCreate = true → b.isCreate = true → a = b) (id : ID) :
     id ∈ Exec.resolve algo sets auth rejected ↔ id ∈ (resolveV2New algo sets auth rejected).result :=
   Exec.resolve_eq_model algo halgo sets auth rejected hwf hr hc id
+
+/-- **Version 1: the executable rendering of the definition** (`Exec.v1Resolve`, the specification stream of the
+    correspondence for room version 1) **satisfies the definition** `V1Resolves`; no hypotheses. -/
+theorem execSpecV1_resolves (sha : ID → Bytes) (conflicted auth : List Event) :
+    V1Resolves sha conflicted auth (Exec.v1Resolve sha conflicted auth) :=
+  Exec.v1Resolve_resolves sha conflicted auth
+
+/-- … and hence returns what the model's `resolveV1` returns when no two conflicted events tie on (depth, SHA-1). -/
+theorem execSpecV1_eq_model {sha : ID → Bytes} {conflicted auth : List Event}
+    (hk : ∀ a ∈ conflicted, ∀ b ∈ conflicted, V.StateResSpec.v1Key sha a = V.StateResSpec.v1Key sha b → a = b) :
+    Exec.v1Resolve sha conflicted auth = resolveV1 sha conflicted auth :=
+  V.StateResSpec.resolveV1_unique hk (Exec.v1Resolve_resolves sha conflicted auth)
 
 end V.C10
